@@ -393,4 +393,78 @@ Section Unimod.
     - rewrite lll_run_flags, E1. cbn [option_map obind erase target tp fst snd]. now rewrite HP.
     - auto.
   Qed.
+  (* ---------- every reachable state, for every choice of the flags ---------- *)
+  Lemma hnf_reach_erase A fl s : hnf_reach A fl s -> exists s0, hnf_reach A (true, true) s0 /\ s = erase fl s0.
+  Proof.
+    induction 1 as [|s s' _ [s0 [H0 ->]] E|s s' _ [s0 [H0 ->]] E].
+    - exists (data_new L A (true, true)). split; [constructor|apply erase_data_new].
+    - rewrite erase_hnf_iterate in E. destruct (hnf_iterate L s0) as [s0'|] eqn:E0; [|discriminate].
+      cbn [option_map] in E. injection E as <-. exists s0'. split; [now apply (hr_step A _ s0)|reflexivity].
+    - rewrite erase_hnf_final in E. destruct (hnf_final L s0) as [s0'|] eqn:E0; [|discriminate].
+      cbn [option_map] in E. injection E as <-. exists s0'. split; [now apply (hr_final A _ s0)|reflexivity].
+  Qed.
+
+  Lemma lll_reach_erase A fl s : lll_reach A fl s -> exists s0, lll_reach A (true, true) s0 /\ s = erase fl s0.
+  Proof.
+    induction 1 as [|s E|s s' _ [s0 [H0 ->]] E].
+    - exists (data_new L A (true, true)). split; [constructor|apply erase_data_new].
+    - rewrite erase_data_new, erase_setup in E. destruct (setup L _) as [s0|] eqn:E0; [|discriminate].
+      cbn [option_map] in E. injection E as <-. exists s0. split; [now apply lr_setup|reflexivity].
+    - rewrite erase_lll_iterate in E. destruct (lll_iterate L s0) as [s0'|] eqn:E0; [|discriminate].
+      cbn [option_map] in E. injection E as <-. exists s0'. split; [now apply (lr_step A _ s0)|reflexivity].
+  Qed.
+
+  (* the state holds target = P A for a unimodular P with inverse Q; P, Q are stored iff the flags ask for them *)
+  Definition tracked (A : lmat R) (fl : bool * bool) (s : lll_data (R := R)) : Prop :=
+    let m := length A in
+    let n := lncols A in
+    nr s = m /\ nc s = n /\
+    exists P Q,
+      tp s = (if fst fl then Some P else None) /\ tpinv s = (if snd fl then Some Q else None) /\
+      meq m n (lget o (target s)) (mmul o m (lget o P) (lget o A)) /\
+      meq m m (mmul o m (lget o P) (lget o Q)) (mid o) /\
+      meq m m (mmul o m (lget o Q) (lget o P)) (mid o).
+
+  Lemma uinv_tracked A fl s0 : uinv (length A) (lncols A) A s0 -> tracked A fl (erase fl s0).
+  Proof.
+    intros (Hm & Hn & P & Q & HP & HQ & HT & HPQ & HQP). unfold tracked. cbn [erase nr nc tp tpinv target].
+    split; [exact Hm|]. split; [exact Hn|]. exists P, Q. rewrite HP, HQ.
+    split; [now destruct (fst fl)|]. split; [now destruct (snd fl)|]. auto.
+  Qed.
+
+  Theorem reach_unimodular A fl s : hnf_reach A fl s \/ lll_reach A fl s -> tracked A fl s.
+  Proof.
+    intros [H|H].
+    - apply hnf_reach_erase in H. destruct H as [s0 [H0 ->]]. apply uinv_tracked. now apply hnf_reach_uinv.
+    - apply lll_reach_erase in H. destruct H as [s0 [H0 ->]]. apply uinv_tracked. now apply lll_reach_uinv.
+  Qed.
+
+  (* the states the two entry points pass through are reachable *)
+  Lemma hnf_loop_reach A fl fuel : forall s s', hnf_reach A fl s -> hnf_loop L fuel s = Some s' -> hnf_reach A fl s'.
+  Proof.
+    induction fuel as [|f IH]; intros s s' HR; cbn [hnf_loop]; destruct (_ <? _)%nat; try discriminate;
+      try (intros H; injection H as <-; exact HR).
+    destruct (hnf_iterate L s) as [s1|] eqn:E; [|discriminate]. cbn [obind].
+    apply IH. now apply (hr_step A fl s).
+  Qed.
+
+  Lemma hnf_run_reach A fl fuel s : hnf_run L A fl fuel = Some s -> hnf_reach A fl s.
+  Proof.
+    unfold hnf_run, hnf_process. destruct (hnf_loop L fuel _) as [s1|] eqn:E; [|discriminate]. cbn [obind].
+    apply hr_final. apply (hnf_loop_reach A fl fuel _ _ (hr_init A fl) E).
+  Qed.
+
+  Lemma lll_loop_reach A fl fuel : forall s s', lll_reach A fl s -> lll_loop L fuel s = Some s' -> lll_reach A fl s'.
+  Proof.
+    induction fuel as [|f IH]; intros s s' HR; cbn [lll_loop]; destruct (_ <? _)%nat; try discriminate;
+      try (intros H; injection H as <-; exact HR).
+    destruct (lll_iterate L s) as [s1|] eqn:E; [|discriminate]. cbn [obind].
+    apply IH. now apply (lr_step A fl s).
+  Qed.
+
+  Lemma lll_run_reach A fl fuel s : lll_run L A fl fuel = Some s -> lll_reach A fl s.
+  Proof.
+    unfold lll_run. destruct (setup L _) as [s1|] eqn:E; [|discriminate]. cbn [obind].
+    apply lll_loop_reach. now apply lr_setup.
+  Qed.
 End Unimod.
